@@ -90,6 +90,11 @@ CHECKS = {
   note="bounded: 3 names, one dimension at a time; nil types inside a programmatically built schema AST are outside the domain; a fatal error is reported only if it recurs 3 times in a fresh process with the default stack limit",
   tech="bounded-exhaustive enumeration of schema graphs with a crash-isolating subprocess runner; oracle = returns (no panic, no fatal error)",
   ref="DESIGN.md §5 C16"),
+ "C17": dict(
+  text="deviation-bounded enumeration of schema ASTs: a base schema using every construct with 16 feature slots (names needing quotes for attributes and actions, annotations with / without value on namespaces, entities, attributes, actions, enums and common types, empty / missing shapes, every appliesTo form, optional attributes, 15 attribute types incl. nested records, nested sets, entity / extension / common / built-in type references, enums with 0-3 values, action parents unqualified / qualified / cross-namespace, placement at top level / namespace / nested namespace, tags, parent lists, common-type chains); every configuration with <=3 (quick) / <=4 (thorough) slots deviating from the base; Resolve(parse(render(S))) equals Resolve(S) for text and JSON in a canonical form, second rendering byte-identical, text->JSON and JSON->text commute with Resolve, resolution errors preserved",
+  note="bounded: <=4 simultaneous deviations from one base schema; Resolve is the reference for what a schema means; canonical form = maps sorted, parent / appliesTo lists as sets, nil == empty",
+  tech="deviation-bounded exhaustive enumeration of schema ASTs through both codecs with a canonical resolved-schema comparison",
+  ref="DESIGN.md §5 C17"),
  "C20": dict(
   text="explicit-state BFS over all container operation histories up to the stated depth from 14 initial states, every transition executed on the real PolicySet and compared with a Go-map model and the authorization decision table",
   note="bounded: ids {a, policy1, policy10, policy2}+loaded ids, 5 policy kinds, depth 4 (quick) / 6 (thorough); model = plain Go map",
